@@ -170,13 +170,13 @@ def model_leg(out, pid, wd, thorough, workers):
     jobs = []
     if thorough:
         jobs += [("mc_all4", dict(universe="all", ops=4, faults=1), ALL_INV, None, True),
+                 ("mc_tcp", dict(universe="tcp", ops=3, faults=2), ALL_INV, None, False),
                  ("mc_core4f2", dict(universe="core", ops=4, faults=2), ALL_INV, None, False),
                  ("mc_mute", dict(universe="all", ops=3, faults=1, mute=["1"]), ALL_INV, None, False),
                  ("mc_slow", dict(universe="core", ops=3, faults=1, slow=True), PROPS, None, False),
                  ("mc_code", dict(universe="all", ops=3, faults=1, dev=DEVS_C07), CODE_INV, None, False)]
     else:
         jobs += [("mc_core", dict(universe="core", ops=3, faults=1), ALL_INV, None, False),
-                 ("mc_tcp", dict(universe="tcp", ops=3, faults=1), ALL_INV, None, False),
                  ("mc_mute", dict(universe="core", ops=3, faults=1, mute=["1"]), ALL_INV, None, False),
                  ("mc_slow", dict(universe="core", ops=2, faults=1, slow=True), PROPS, None, False),
                  ("mc_code", dict(universe="core", ops=3, faults=1, dev=DEVS_C07), CODE_INV, None, False)]
@@ -210,9 +210,10 @@ def generator_families(thorough):
     """(name, cfg kw, replay args, quick sample size)"""
     devs = DEVS_C07
     return [
-        ("core", dict(universe="core", ops=4 if thorough else 3, faults=1, dev=devs), [], 900),
-        ("tcp", dict(universe="tcp", ops=3, faults=1, dev=devs), [], 700),
-        ("mute", dict(universe="core", ops=2, faults=0, mute=["1"], dev=devs), ["--mute", "1"], 24),
+        ("core", dict(universe="core", ops=4 if thorough else 3, faults=1, dev=devs), [], 700),
+        ("tcp", dict(universe="tcp", ops=3, faults=1, dev=devs), [], 500),
+        ("load", dict(universe="load", ops=5, faults=0, dev=devs), [], 300),
+        ("mute", dict(universe="core", ops=2, faults=0, mute=["1"], dev=devs), ["--mute", "1"], 16),
     ]
 
 
@@ -262,7 +263,9 @@ def replay_leg(out, pid, wd, bins, thorough, workers, seed):
             raise vlib.ToolError("generator %s: %s" % (name, g["violated"] or "no script"))
         for fid, n in counts.items():
             out.known[fid] = out.known.get(fid, 0) + n
-        args = ["--threads", "12", "--seed", str(seed), "--index-base", str(idx * 60000), "--timeout", "1"] + rargs
+        # a time-out is only expected in the mute family: elsewhere the worker time-out is one no loaded machine reaches
+        args = ["--threads", "12", "--seed", str(seed), "--index-base", str(idx * 60000),
+                "--timeout", "1" if name == "mute" else "12"] + rargs
         if not thorough and sample and g["n_replays"] > sample:
             args += ["--sample", str(sample)]
             exhaustive = False
@@ -339,7 +342,7 @@ def trace_leg(out, pid, wd, bins, thorough, seed, runs=None, tag="trace"):
         trace = os.path.join(wd, "%s_%d.ndjson" % (tag, c))
         res = vlib.run_harness(bins["drive_sozu"], ["--seed", str(seed * 7919 + c), "--runs", str(n_runs // chunks), "--steps", str(steps),
                                                     "--threads", "12", "--out", trace, "--index-base", str(200000 + c * 500),
-                                                    "--timeout", "1"], timeout=1800)
+                                                    "--timeout", "2"], timeout=1800)
         summ = [o for o in res if o.get("kind") == "summary"]
         if not summ:
             raise vlib.ToolError("drive_sozu produced no summary")
@@ -431,7 +434,8 @@ def replay_one(report, prop, bins, replay):
         print(open(replay).read()[-6000:])
         raise SystemExit(0)
     if '"script"' in first:
-        args = ["--threads", "1", "--verbose", "--timeout", "1"] + (["--mute", "1"] if name.startswith("compose_mute_") else [])
+        mute = name.startswith("compose_mute_")
+        args = ["--threads", "1", "--verbose", "--timeout", "1" if mute else "12"] + (["--mute", "1"] if mute else [])
         res = vlib.run_harness(bins["replay_sozu"], args, stdin_path=replay, timeout=600)
         for v in res:
             if v.get("kind") == "violation" and property_of(v["class"]) in (prop, "both"):
